@@ -57,6 +57,16 @@ type snTxRec struct {
 	NM     int    `json:"nm"`
 	Route  string `json:"route"`
 	Q      string `json:"q"`
+	// Qpos: which message of an Ethereum batch carries the flaw Q (1-based; the others are valid)
+	Qpos int `json:"qpos,omitempty"`
+	// Parts: the signed messages of a batch when they differ in signer / nonce / amount
+	Parts []snPart `json:"parts,omitempty"`
+}
+
+type snPart struct {
+	Signer string `json:"signer"`
+	Nonce  uint64 `json:"nonce"`
+	Amount string `json:"amount"`
 }
 
 type snStep struct {
@@ -258,13 +268,25 @@ func (d *snEnv) buildOrder(t *snTxRec) ([]byte, error) {
 	var bz []byte
 	var err error
 	if snIsEth(t.Route) {
-		chain := d.n.App.EvmKeeper.ChainID()
-		if t.Q == "foreign" {
-			chain = big.NewInt(snForeignEth[pick%len(snForeignEth)])
+		// the flaw sits in message Qpos of the batch only; the other messages are valid
+		bad := t.Qpos - 1
+		if bad < 0 || bad >= t.NM {
+			bad = 0
 		}
 		var msgs []*evmtypes.MsgEthereumTx
 		for i := 0; i < t.NM; i++ {
-			m, err := BuildEthMsg(k, d.ethOpts(t.Route, t.Nonce+uint64(i), rcpt, amount, 21000, nil, chain))
+			chain := d.n.App.EvmKeeper.ChainID()
+			if t.Q == "foreign" && i == bad {
+				chain = big.NewInt(snForeignEth[pick%len(snForeignEth)])
+			}
+			o := d.ethOpts(t.Route, t.Nonce+uint64(i), rcpt, amount, 21000, nil, chain)
+			var m *evmtypes.MsgEthereumTx
+			var err error
+			if t.Q == "unprotected" && i == bad && o.Type == 0 {
+				m, err = snEthUnprotected(k, o)
+			} else {
+				m, err = BuildEthMsg(k, o)
+			}
 			if err != nil {
 				return nil, err
 			}
@@ -272,7 +294,7 @@ func (d *snEnv) buildOrder(t *snTxRec) ([]byte, error) {
 		}
 		if t.Q == "badsig" {
 			f := []string{"r", "s"}[pick%2]
-			if err := snEthMutate(d, msgs[0], t.Route, f, "flip"); err != nil {
+			if err := snEthMutate(d, msgs[bad], t.Route, f, "flip"); err != nil {
 				return nil, err
 			}
 		}
@@ -378,11 +400,16 @@ func snRandomOrder(r *rand.Rand, n int) []snStep {
 				}
 			}
 			nm := 1
-			if r.Intn(6) == 0 {
+			if snIsEth(route) && r.Intn(4) == 0 {
+				nm = 2 + r.Intn(2)
+			} else if r.Intn(8) == 0 {
 				nm = 2
 			}
-			t = snTxRec{Signer: a, Nonce: nonce, Route: route, Q: q, NM: nm}
-			t.ID = fmt.Sprintf("%s:%d:%s:%s:%d:%d", a, nonce, route, q, nm, i)
+			if q == "foreign" && route == "eth-legacy" && r.Intn(2) == 0 {
+				q = "unprotected"
+			}
+			t = snTxRec{Signer: a, Nonce: nonce, Route: route, Q: q, NM: nm, Qpos: 1 + r.Intn(nm)}
+			t.ID = fmt.Sprintf("%s:%d:%s:%s:%d:%d:%d", a, nonce, route, q, nm, t.Qpos, i)
 			earlier = append(earlier, t)
 		}
 		mode := "deliver"
@@ -423,7 +450,11 @@ func (d *snEnv) runMatrix(cases []snCase, rep int) error {
 	}
 	d.commit()
 	for i, c := range cases {
-		if err := d.runCase(c, rep, i); err != nil {
+		run := d.runCase
+		if c.Field == "batch" {
+			run = d.runBatchCase
+		}
+		if err := run(c, rep, i); err != nil {
 			return fmt.Errorf("case %s:%s:%s: %w", c.Route, c.Field, c.Mut, err)
 		}
 	}
